@@ -82,6 +82,8 @@ def run(ctx):
                 lists.append(l)
             for b in BAD:   # every failure archetype in first, middle and last position
                 lists += [[b, 'ok-warn', 'ok-fail'], ['ok-warn', b, 'ok-clean'], ['ok-clean', 'ok-fail', b]] if not q else [[b, 'ok-warn'] if BAD.index(b) % 2 else ['ok-fail', b]]
+            # one-entry lists: a targets file naming a single (failing or healthy) target is still a multi-target run
+            lists += [[b] for b in (BAD if not q else BAD[::2] + ['refused', 'bad-blocksize'])] + [['ok-warn'], [BAD[1], BAD[1]]]
             cases = [{'list': l, 'threads': rng.choice([1, 2, len(l), 32]), 'json': (i % 2 == 1)} for i, l in enumerate(lists)]
 
             def do(z, c):
